@@ -3,6 +3,7 @@
 package llrp
 
 import (
+	"strings"
 	"context"
 	"errors"
 	"fmt"
@@ -176,6 +177,106 @@ func TestVerifC12(t *testing.T) {
 		for _, exp := range statusable {
 			check(exp, exp.TypeID, statusPayload(code, "x", true, true))
 			check(exp, em.TypeID, statusPayload(code, "", false, false))
+		}
+	}
+	// 2b. the reader's description is whatever bytes the reader sent: multi-byte UTF-8, Latin-1 / arbitrary bytes (not valid
+	// UTF-8), long, empty — the status must be exposed all the same
+	descs := []string{"n\xb0 7", "\xff\xfe\x00\x80", "température élevée", "读写器错误 😀", strings.Repeat("x", 300), strings.Repeat("é", 200), "\x00", "a\x80"}
+	for i := 0; i < 6; i++ {
+		b := make([]byte, 1+rng.intn(40))
+		for j := range b {
+			b[j] = byte(rng.next())
+		}
+		descs = append(descs, string(b))
+	}
+	for _, code := range []int{0, 100, 101, 109, 401, 65535} {
+		for di, d := range descs {
+			exp := statusable[(code+di)%len(statusable)]
+			check(exp, exp.TypeID, statusPayload(code, d, di%2 == 0, di%3 == 0))
+			check(exp, em.TypeID, statusPayload(code, d, di%3 == 0, di%2 == 0))
+		}
+	}
+	// 2c. several exchanges in flight at once, their replies arriving back to back in one write: every caller must see
+	// the status of ITS reply (each exchange is one line, judged like the sequential ones)
+	rounds := 12
+	if vthorough() {
+		rounds = 120
+	}
+	for round := 0; round < rounds; round++ {
+		k := 2 + rng.intn(4)
+		type call struct {
+			exp     *sContainer
+			typ     int
+			payload []byte
+			in      interface{}
+			done    chan error
+		}
+		calls := make([]*call, k)
+		byID := map[uint32]*call{}
+		ok := true
+		for i := range calls {
+			exp := statusable[rng.intn(len(statusable))]
+			code := []int{0, 100, 101, 109, 401, 0, 0}[rng.intn(7)]
+			typ := exp.TypeID
+			if rng.intn(5) == 0 {
+				typ = em.TypeID
+			}
+			c := &call{exp: exp, typ: typ, payload: statusPayload(code, fmt.Sprintf("round %d call %d code %d", round, i, code), i%2 == 0, false),
+				in: MessageType(exp.TypeID).NewInstance(), done: make(chan error, 1)}
+			calls[i] = c
+			ctx, cancel := context.WithTimeout(context.Background(), 3*time.Second)
+			defer cancel()
+			go func() {
+				defer func() {
+					if r := recover(); r != nil {
+						c.done <- fmt.Errorf("panic: %v", r)
+					}
+				}()
+				c.done <- ses.c.SendFor(ctx, MsgGetReaderCapabilities.NewInstance(), c.in.(Incoming))
+			}()
+			f, got := nextRequest() // one request at a time, so that the wire ID of each call is known
+			if !got {
+				ok = false
+				break
+			}
+			byID[f.id] = c
+		}
+		if !ok {
+			o.line("check-sendfor harness-recv-failed", "accept")
+			break
+		}
+		var all []byte
+		for id, c := range byID {
+			all = append(all, vframe{ver: 1, typ: c.typ, id: id, payload: c.payload}.bytes()...)
+		}
+		if _, err := ses.p.c.Write(all); err != nil {
+			o.line("check-sendfor harness-send-failed", "accept")
+			break
+		}
+		for _, c := range calls {
+			var res error
+			obs := ""
+			select {
+			case res = <-c.done:
+			case <-time.After(4 * time.Second):
+				obs = "timeout"
+			}
+			if obs == "" {
+				inVal := s.fromGo(c.exp, reflect.ValueOf(c.in).Elem()).String()
+				var se *StatusError
+				switch {
+				case res == nil:
+					obs = "nil in=" + inVal
+				case errors.As(res, &se):
+					ls := LLRPStatus(*se)
+					obs = "status " + s.fromGo(stC, reflect.ValueOf(&ls).Elem()).String() + " in=" + inVal
+				case len(res.Error()) > 6 && res.Error()[:6] == "panic:":
+					obs = "panic"
+				default:
+					obs = "err in=" + inVal
+				}
+			}
+			o.line(fmt.Sprintf("check-sendfor %s %d x%s %s", c.exp.Name, c.typ, vhex(c.payload), obs), "accept")
 		}
 	}
 	// 3. responses with fields after/before the status (GetSupportedVersionResponse puts the status last), damaged payloads
